@@ -181,6 +181,42 @@ def check_case(run, case):
                 run.ev('limit_variants_checked')
         finally:
             sp.email_detection, sp.website_detection = oe, ow
+        # ---- the real CLI, results on standard output - also a standard output that cannot represent every candidate.  Every record that names a string and
+        # a non-zero probability is a promise about THAT string: it is the in-process score of exactly that string
+        if rng.random() < 0.35:
+            from .. import cli
+            sdir = repo.scratch()
+            tf = os.path.join(sdir, f'c13in_{os.getpid()}.txt')
+            sub = [c for c in cands if '\r' not in c and not (c.startswith('$HEX[') and c.endswith(']'))][:300]
+            open(tf, 'wb').write(b''.join(c.encode(case['encoding']) + b'\n' for c in sub))
+            try:
+                for oenc in rng.sample(['utf-8', 'cp1252', 'ascii', 'latin-1'], 2):
+                    out, err, rc, to = cli.run_cli('password_scorer.py', ['-r', name, '-i', tf], stdin_mode='devnull', env={'PYTHONIOENCODING': oenc}, timeout=120, max_out=16 << 20)
+                    run.ev('scorer_cli_runs')
+                    if to:
+                        continue
+                    nrec = 0
+                    prev = None
+                    for line in out.decode(oenc, 'replace').split('\n'):
+                        f = line.split('\t')
+                        was, prev = prev, line
+                        if len(f) != 4 or (f[0] == '' and was == '[UNPRINTABLE_HEX]'):
+                            continue                # the tool's placeholder for a string it cannot print: such a record names no string
+                        try:
+                            p_, om_ = float(f[2]), int(f[3])
+                        except ValueError:
+                            continue
+                        nrec += 1
+                        if p_ > 0:
+                            mine = first.get(f[0])
+                            if mine is None:
+                                mine = sc.parse(f[0]) if oracles.valid_password(f[0]) else (f[0], 'o', 0, -1)
+                            if not (abs(mine[2] - p_) <= 1e-9 * max(p_, mine[2])):
+                                run.violation(f'password_scorer.py (stdout {oenc}) reports {f[0]!r} with probability {p_!r}; scoring exactly that string gives {mine[2]!r}', case,
+                                              observed=line[:120]); return
+                    run.ev('scorer_cli_records', nrec)
+            finally:
+                os.remove(tf)
         run.ev('rulesets')
         nz = [(s, first[s][2]) for s in first if first[s][2]]
         run.sample({'list': case['items'][:5], 'encoding': case['encoding'], 'candidates': len(cands), 'nonzero': len(nz), 'examples': nz[:4],
